@@ -16,7 +16,7 @@ ASSUMPTIONS = ['symbols are 1-character strings (sorted_cn_paths concatenates th
                'all readable strings are enumerated when the network has <= 4000 arc combinations, otherwise only the added hypotheses are required to stay readable']
 N = {'quick': 4000, 'thorough': 300000}
 CLASSES = ['random', 'prefix_suffix', 'end_burst', 'start_burst', 'middle_burst', 'with_empty', 'permutations', 'boh', 'boh_lm', 'single', 'wide_scores', 'long_single']
-REQUIRED = ['bags_as_one_shot_iterables', 'default_weight_networks', 'networks_over_1000_positions', 'peaky_bags', 'wide_score_histories', 'adds_checked', 'old_readable_checked', 'weight_checked', 'paths_checked', 'boh_checked', 'single_checked']
+REQUIRED = ['networks_after_add_and_sort', 'hypotheses_of_class_indices', 'million_path_networks', 'bags_as_one_shot_iterables', 'default_weight_networks', 'networks_over_1000_positions', 'peaky_bags', 'wide_score_histories', 'adds_checked', 'old_readable_checked', 'weight_checked', 'paths_checked', 'boh_checked', 'single_checked']
 KNOWN_EMPTY = 'empty hypothesis added to an empty network'
 
 
@@ -261,6 +261,13 @@ def check(case, mon, ctx):
         paths = cnm.sorted_cn_paths(ncn)
         if h and (len(paths) != 1 or paths[0][0] != h or not close(paths[0][1], 1.0)):
             mon.violation('single-reads-back', {'hyp': h, 'paths': paths})
+        # the same hypothesis as a sequence of class indices (0 is a class like any other)
+        if h and len(h) < 50:
+            idx = [ord(ch) - ord('a') for ch in h]
+            cn_i = cnm.add_hypothese([], idx, scores[0])
+            mon.count('hypotheses_of_class_indices')
+            if list(cnm.best_cn_path(cnm.normalize_cn(copy.deepcopy(cn_i)))) != idx:
+                mon.violation('single-reads-back', {'hyp': idx, 'best': list(cnm.best_cn_path(cnm.normalize_cn(copy.deepcopy(cn_i)))), 'note': 'symbols given as class indices'})
         # also through a bag
         boh = ctx.BOH()
         boh.add(h, -1.5)
@@ -300,6 +307,24 @@ def check(case, mon, ctx):
                 mon.violation('boh-equals-history', {'hyps': hyps, 'note': 'the bag handed over as a generator of its hypotheses gives another network', 'from_generator': raw_it[:3], 'from_bag': raw[:3]})
         except Exception as e:
             mon.violation('boh-equals-history', {'hyps': hyps, 'note': 'a generator of hypotheses is not accepted', 'exception': repr(e)[:200]})
+        # history on the bag object: a network was produced from it above; now a hypothesis is added that sorts ahead of the others, the bag is sorted, and a network
+        # is produced again - it is the network of a bag built from scratch with those hypotheses in that order
+        if hyps:
+            new_t = (hyps[0] + 'c') if (hyps[0] + 'c') not in hyps else (hyps[0] + 'cc')
+            boh.add(new_t, max(case['vis']) + 1.0, (max(case['lm']) if case['lm'] else None))
+            boh.sort()
+            again = cnm.produce_cn_from_boh(boh, visual_weight=vw, lm_weight=lw, normalize=False)
+            fresh_bag = ctx.BOH(lm_weight=case['weights'][1])
+            for h in boh:
+                fresh_bag.add(h.transcript, h.vis_sc, h.lm_sc)
+            ref_again = cnm.produce_cn_from_boh(fresh_bag, visual_weight=vw, lm_weight=lw, normalize=False)
+            mon.count('networks_after_add_and_sort')
+            if not same(again, ref_again) or not readable(again, new_t):
+                mon.violation('boh-equals-history', {'hyps': [h.transcript for h in boh], 'note': 'second network from a bag that got a hypothesis and was sorted after the first network was produced',
+                              'from_the_long_lived_bag': again[:3], 'from_a_bag_built_from_scratch': ref_again[:3]})
+            boh = ctx.BOH(lm_weight=case['weights'][1])
+            for k, h in enumerate(hyps):
+                boh.add(h, case['vis'][k], case['lm'][k] if case['lm'] else None)
         dflt = cnm.produce_cn_from_boh(boh, normalize=False)
         exp_dflt = [math.exp(case['vis'][k] + (case['lm'][k] if case['lm'] else 0.0)) for k in range(len(hyps))]
         cn_d, _, _ = run_history(hyps, exp_dflt, mon, ctx)
@@ -318,3 +343,25 @@ def check(case, mon, ctx):
         cn, must_read, total = run_history(hh, ss, mon, ctx)
         mon.observe('network', [sorted((repr(k), round(v, 12)) for k, v in pos.items()) for pos in cn])
         check_paths(cn, mon, ctx, {'history': hh, 'scores': ss})
+
+
+def extra(mon, ctx):
+    """a network of 13 positions with 3 arcs each: 1 594 323 arc combinations, every one enumerated once, in non-increasing order, probabilities summing to 1"""
+    if ctx.shard != 0:
+        return
+    cnm = ctx.cnm
+    rng = np.random.default_rng([ctx.seed, 14, 1313])
+    cn = []
+    for k in range(13):
+        w = rng.uniform(0.1, 1.0, size=3)
+        w = w / w.sum()
+        cn.append({'a': float(w[0]), 'b': float(w[1]), None: float(w[2])})
+    paths = cnm.sorted_cn_paths(cn)
+    mon.count('million_path_networks')
+    mon.count('extra_evaluations')
+    mon.cur_desc = {'leg': '13 positions x 3 arcs'}
+    tot = float(sum(p for _, p in paths))
+    if len(paths) != 3 ** 13 or abs(tot - 1.0) > 1e-6:
+        mon.violation('paths-product', {'n_got': len(paths), 'n_expected': 3 ** 13, 'probabilities_sum_to': tot})
+    elif any(paths[k][1] < paths[k + 1][1] - 1e-15 for k in range(0, len(paths) - 1, 97)):
+        mon.violation('paths-non-increasing', {'positions': 13})
